@@ -150,6 +150,15 @@ def build_ir(g, variant=None, shape=()):
     ir.cfg.add(g.Edge(cb, p, g.Edge.Label(g.Edge.Type.Call, False, True)))
     ir.aux_data["t"] = g.AuxData([1], "sequence<int64_t>")
     objs = dict(ir=ir, m=m, s=s, bi=bi, cb=cb, db=db, p=p, sym=sym, sym2=sym2)
+    if "multi_cfg" in shape:
+        # several edges sharing endpoints (a vertex with more than one incident edge end, a self loop)
+        cb2 = g.CodeBlock(offset=8, size=2, uuid=U(600), byte_interval=bi)
+        p2 = g.ProxyBlock(uuid=U(601), module=m)
+        lab = g.Edge.Label(g.Edge.Type.Branch, True, False)
+        ir.cfg.add(g.Edge(cb2, p, lab))
+        ir.cfg.add(g.Edge(cb2, cb2, lab))
+        ir.cfg.add(g.Edge(p, cb2, None))
+        objs.update(cb2=cb2, p2=p2)
     if variant:
         apply_variant(g, objs, variant)
     return objs
@@ -197,6 +206,14 @@ def apply_variant(g, o, variant):
             del se[val]
         elif attr == "add":
             se[val] = g.SymAddrConst(0, o["sym2"])
+        return
+    if obj == "cfg" and attr.startswith("retarget"):
+        lab = g.Edge.Label(g.Edge.Type.Branch, True, False)
+        old_e, new_e = {"retarget": (("cb2", "p"), ("cb2", "p2")), "retarget_loop": (("cb2", "cb2"), ("cb2", "p2")),
+                        "retarget_source": (("p", "cb2"), ("p2", "cb2"))}[attr]
+        l = None if attr == "retarget_source" else lab
+        o["ir"].cfg.discard(g.Edge(o[old_e[0]], o[old_e[1]], l))
+        o["ir"].cfg.add(g.Edge(o[new_e[0]], o[new_e[1]], l))
         return
     if obj == "cfg":
         e = g.Edge(o["cb"], o["p"], g.Edge.Label(g.Edge.Type.Call, False, True))
@@ -286,10 +303,11 @@ def c18_check(g, case):
 def c18_explore(g, seed, budget):
     rng = random.Random(seed)
     cases = []
-    for shape in ((), ("no_entry",), ("loose_sym",), ("no_entry", "loose_sym")):
+    for shape in ((), ("no_entry",), ("loose_sym",), ("no_entry", "loose_sym"), ("multi_cfg",)):
         skip = lambda v: (v[0] == "m.entry_point" and "no_entry" in shape) or (v == ("remove", "sym2") and False)
-        cases += [{"variant": None, "shape": list(shape)}] + [{"variant": list(v), "shape": list(shape)} for v in VARIANTS
-                                                               if not skip(v)]
+        extra = [("cfg.retarget", None), ("cfg.retarget_loop", None), ("cfg.retarget_source", None)] if "multi_cfg" in shape else []
+        cases += [{"variant": None, "shape": list(shape)}] + [{"variant": list(v), "shape": list(shape)}
+                                                               for v in list(VARIANTS) + extra if not skip(v)]
     kinds = ["DataBlock", "CodeBlock", "ByteBlock", "ProxyBlock", "Symbol", "Section", "ByteInterval", "Module", "IR"]
     cases += [{"cross": [a, b]} for a in kinds for b in kinds if a < b]
     n = 0
